@@ -47,7 +47,20 @@ func hostileAdmin(t *rapid.T, g *hgen) []byte {
 	k := rapid.IntRange(0, 3).Draw(t, "hEdits")
 	for i := 0; i < k && len(toks) > 0; i++ {
 		pos := rapid.IntRange(0, len(toks)-1).Draw(t, "hPos")
-		switch rapid.IntRange(0, 8).Draw(t, "hEdit") {
+		switch rapid.IntRange(0, 10).Draw(t, "hEdit") {
+		case 9, 10:
+			// an extreme or oddly written number in a numeric field
+			var numeric []int
+			for j, tk := range toks {
+				switch tk.Tag {
+				case rig.TagMsgSeqNum, rig.TagHeartBtInt, rig.TagBeginSeqNo, rig.TagEndSeqNo, rig.TagNewSeqNo, rig.TagRefSeqNum, "384", "627", rig.TagEncryptMethod:
+					numeric = append(numeric, j)
+				}
+			}
+			if len(numeric) > 0 {
+				j := numeric[rapid.IntRange(0, len(numeric)-1).Draw(t, "hNumPos")]
+				toks[j].Val = rapid.SampledFrom(extremeNumbers).Draw(t, "hNum")
+			}
 		case 0:
 			toks = append(toks[:pos], toks[pos+1:]...)
 		case 1:
@@ -77,6 +90,9 @@ func hostileAdmin(t *rapid.T, g *hgen) []byte {
 	return ref.Assemble(ref.StdTags, "FIX.4.4", typ, toks)
 }
 
+var extremeNumbers = []string{"-9223372036854775808", "9223372036854775807", "-4611686018427387904", "4611686018427387904", "-2147483648", "2147483647",
+	"2147483648", "4294967296", "-1", "0", "-0", "+1", "00000000001", "1e3", "0x10", "18446744073709551615", "99999999999999999999", " 1", "1 "}
+
 func genC11Sess(t *rapid.T) *C11SessCase {
 	cfg := genCfg(t, "")
 	cfg.Approve = "all"
@@ -90,8 +106,22 @@ func genC11Sess(t *rapid.T) *C11SessCase {
 	}
 	n := rapid.IntRange(1, 12).Draw(t, "nSteps")
 	for i := 0; i < n; i++ {
-		if rapid.IntRange(0, 9).Draw(t, "valid") < 2 {
-			c.Steps = append(c.Steps, rig.Step{Op: "in", In: g.testRequest(fmt.Sprint("v", i))})
+		if rapid.IntRange(0, 9).Draw(t, "valid") < 3 {
+			// well-formed traffic and local calls in between: the hostile message meets every session state
+			switch rapid.IntRange(0, 7).Draw(t, "validKind") {
+			case 0:
+				c.Steps = append(c.Steps, rig.Step{Op: "in", In: g.logout()})
+			case 1:
+				c.Steps = append(c.Steps, rig.Step{Op: "in", In: g.goodLogon(0)})
+			case 2:
+				c.Steps = append(c.Steps, rig.Step{Op: "logout"})
+			case 3:
+				c.Steps = append(c.Steps, rig.Step{Op: "send", ID: fmt.Sprint("s", i)})
+			case 4:
+				c.Steps = append(c.Steps, rig.Step{Op: "in", In: g.heartbeat("")})
+			default:
+				c.Steps = append(c.Steps, rig.Step{Op: "in", In: g.testRequest(fmt.Sprint("v", i))})
+			}
 			continue
 		}
 		c.Steps = append(c.Steps, rig.Step{Op: "raw", Raw: hostileAdmin(t, g)})
